@@ -249,7 +249,7 @@ def kernel_sweep(res, mod, tier):
             out.append(s_ + s_[0])
         return ['<v a="x">{{ %s }}</v>' % x for x in out] + ["<v a='{{ %s }}'/>" % x for x in out if "'" not in x]
     try:
-        _, pend = c12.m12b(sink, mod, tier)
+        _, pend = c12.m12b(sink, mod, tier, L=8 if tier == 'thorough' else 6)     # (C12 itself always runs L = 8)
         for cls, what, s_, _k in pend:
             if cls.startswith('exec:'):
                 cands.append(('M01d-parse_lit_str', cls[5:], what + ' on %r' % (s_,), lit_templates(s_)))
@@ -321,6 +321,124 @@ def kernel_sweep(res, mod, tier):
     return nfn
 
 
+def replay_css(css, options, timeout=10):
+    """-> 'ok' | 'panic:<msg>' | 'hang' (own process, time limit)"""
+    common.replay(['get-var-name', '0'])     # make sure the binary is built
+    try:
+        r = subprocess.run([common._replay_bin['dev'], 'css'], input=json.dumps([{'css': css, 'options': options}]), stdout=subprocess.PIPE,
+                           stderr=subprocess.PIPE, text=True, timeout=timeout)
+    except subprocess.TimeoutExpired:
+        return 'hang'
+    if r.returncode != 0:
+        return 'abort:%d' % r.returncode
+    out = json.loads(r.stdout)[0]
+    return ('panic:' + out['panic']) if 'panic' in out else 'ok'
+
+
+STRAY_SHEETS = ['.a{b:c} } .d{e:f}', '.a ) .b{c:d}', '] .a{b:c}', '@media (x){ ) .a{b:c} }', '.a{b:c}}', '@media (x){.a{b:c}} } .d{}', '){}', '.a{b:(]}', '@import ) "a";', '}',
+                '.a[b{c:d}', 'a{b:calc(1px + }', '@media (x', ':host ) {}', '@supports (a:b) { ] }', '<!-- } -->', '.a{b:url(}', '.a{b:"\n}']
+
+
+def m01h(res, tier):
+    """M01h: stylesheet compiler, open-environment mode: `parse_rules` loops while the input is not exhausted, so every call of
+    `parse_qualified_rule` - and every call of `parse_at_rule` that answers "handled" - must consume at least one token of a non-empty
+    level (all token kinds, including unmatched closing brackets); panics / failed asserts inside the two routines are obligations too.
+    A model-level violation is replayed through `from_css` in its own process under a time limit: the rendered witness, then a pool of
+    sheets with stray closers / unterminated blocks.  Only a hang / panic of the real build is a violation."""
+    from checks import css_common as cc
+    from mirsym import sc_env
+    from mirsym.sc_env import TK
+    mod = Module(common.mir_dump('sc'))
+    cc.Css.HAVOC = ()
+    cc.Css.HAVOC = tuple(sorted(cc.compute_modifies(mod, res)))
+    total = 0
+    closers = {'CloseParenthesis': ')', 'CloseSquareBracket': ']', 'CloseCurlyBracket': '}'}
+    for name in ('qualified_rule', 'at_rule'):
+        try:
+            env, exe, done, _obs, dt = cc.TARGETS[name](mod, 3)
+        except cc.MirUnsupported as e:
+            res.inconc('M01h: %s is outside the executor (%s)' % (name, str(e)[:120]))
+            hit = None
+            for css in STRAY_SHEETS:
+                for o in ({}, {'class_prefix': 'p', 'convert_host': True, 'import_sign': 'S'}):
+                    st = replay_css(css, o)
+                    if st != 'ok':
+                        hit = (css, o, st)
+                        break
+                if hit:
+                    break
+            if hit:
+                res.violation({'engine': 'replay', 'harness': 'M01h-' + name, 'class': 'css-' + hit[2].split(':')[0]},
+                              'the stylesheet compiler %s on %r with %r' % ('does not terminate within 10 s' if hit[2] == 'hang' else 'fails (%s)' % hit[2], hit[0], hit[1]),
+                              {'css': hit[0], 'options': hit[1]})
+            continue
+        res.solver_time += exe.stats['solver_time']
+        obs = []
+        n, k0 = sc_env.level_len('r'), sc_env.tok_kind('r', 0)
+        nonempty = z3.And(n > 0, z3.Not(z3.And(n == 1, k0 == TK['WhiteSpace'])))
+        for q in done:
+            if q.status != 'returned':
+                continue
+            pos, _ = env.cpos(q, 'r')
+            if pos != 0:
+                continue
+            if name == 'at_rule':
+                r = q.result
+                handled = r if isinstance(r, z3.ExprRef) else z3.BoolVal(bool(r))
+                obs.append(cc.Ob(['C01'], 'progress', 'parse_at_rule answers "handled" without consuming a token', q, z3.And(nonempty, handled), name))
+            else:
+                obs.append(cc.Ob(['C01'], 'progress', 'parse_qualified_rule returns without consuming a token of a non-empty level (parse_rules would call it again for ever)', q, nonempty, name))
+        for f in exe.findings:
+            if f.kind != 'unwind':
+                obs.append(cc.Ob(['C01'], 'exec', '%s: %s' % (name, f.kind), f.path, z3.BoolVal(True), name))
+            else:
+                res.inconc('M01h %s: unwinding bound reached (%s)' % (name, f.info))
+        bad, nq = cc.decide(exe, obs, res, ['C01'])
+        total += nq
+        log('[C01] M01h %s: %d paths, %d progress / execution obligations, %d violated (%.1fs)' % (name, len(done), nq, len(bad), dt))
+        res.functions.append({'fn': 'parse_%s (stylesheet lib.rs), open environment' % name, 'max_tokens_per_level': 3, 'paths': len(done), 'obligations': nq,
+                              'role': 'progress (>= 1 token consumed per call from parse_rules) and execution obligations'})
+        seen = set()
+        for ob, model in bad:
+            if ob.cls in seen:
+                continue
+            seen.add(ob.cls)
+            # render the witness level (closers included: at the top level every closing bracket is a stray token)
+            nn = model.eval(n, model_completion=True).as_long()
+            parts = []
+            for i in range(min(nn, env.lmax)):
+                kk = model.eval(sc_env.tok_kind('r', i), model_completion=True).as_long()
+                kn = [x for x, v in TK.items() if v == kk][0]
+                parts.append(closers[kn] if kn in closers else (cc.render_token(model, 'r', i, env, cc.probe_for(kn, name)) or ''))
+            css = '/**/'.join(parts)
+            cands = [css, '.a{b:c}' + css + '.d{e:f}', css + '{}'] + STRAY_SHEETS
+            opts = cc.witness_options(model)
+            hit = None
+            for c_ in cands:
+                for o in (opts, {}):
+                    st = replay_css(c_, o)
+                    res.coverage['traces_validated_against_impl'] = res.coverage.get('traces_validated_against_impl', 0) + 1
+                    if st != 'ok':
+                        hit = (c_, o, st)
+                        break
+                if hit:
+                    break
+            if hit:
+                res.violation({'engine': 'M', 'harness': 'M01h-' + name, 'class': 'css-' + hit[2].split(':')[0]},
+                              '%s; end to end: the stylesheet compiler %s on %r' % (ob.desc, 'does not terminate within 10 s' if hit[2] == 'hang' else 'fails (%s)' % hit[2], hit[0]),
+                              {'css': hit[0], 'options': hit[1]})
+            else:
+                res.inconc('M01h %s: %s - witness %r does not make the real build hang or fail' % (name, ob.desc, css))
+    # vacuity / translator validation: stray closers and unterminated blocks return normally on this tree
+    for css in STRAY_SHEETS[:8]:
+        st = replay_css(css, {'class_prefix': 'p', 'convert_host': True})
+        if st != 'ok':
+            res.violation({'engine': 'replay', 'harness': 'M01h', 'class': 'css-' + st.split(':')[0]}, 'the stylesheet compiler %s on %r' % (st, css), {'css': css, 'options': {'class_prefix': 'p', 'convert_host': True}})
+        else:
+            res.coverage['traces_validated_against_impl'] = res.coverage.get('traces_validated_against_impl', 0) + 1
+    return total
+
+
 def main(tier):
     res = Result('C01', 'other')
     res.engines = ['M (MIR symbolic execution with ParseState contracts)']
@@ -329,6 +447,7 @@ def main(tier):
     n1 = m01b(res, mod, tier)
     n2 = m01e(res, mod, tier)
     n2 += kernel_sweep(res, mod, tier)
+    n2 += m01h(res, tier)
     pipeline_probe(res)
     from checks import mixed
     n2 += mixed.run_property(res, mod, 'C01', tier)
@@ -342,7 +461,7 @@ def main(tier):
                        'CustomAttribute::parse_next consumes >= 1 character when the peeked character is an identifier start']
     res.outside = ['inputs longer than the kernel bounds', 'the recursive expression / tag parsers as a whole (Kani: 2 symbolic bytes > 15 min)',
                    'the recovery loop inside Element::parse (only replayed with the witnesses of its twin)', 'stringifier and generator totality',
-                   'the stylesheet compiler (cssparser) as a whole', 'stack depth and the polynomial resource bound']
+                   'the stylesheet compiler beyond the progress / execution obligations of parse_qualified_rule and parse_at_rule (cssparser itself, the block routines, levels > 3 tokens)', 'stack depth and the polynomial resource bound']
     res.coverage.update({
         'explanation': 'engine M executes the MIR of the number-literal scanner and of the tag-recovery loop over symbolic character sequences; '
                        'every panic / unreachable / overflow assert / unwrap is an obligation decided by z3 on every path, and the unwinding assertion shows that every loop iteration consumes input',
@@ -358,6 +477,10 @@ def replay(path):
         out = replay_parse_number([rp['input']])[0]
         print(out)
         return 1 if 'panic' in out else 0
+    if 'css' in rp:
+        st = replay_css(rp['css'], rp.get('options') or {})
+        print(st)
+        return 0 if st == 'ok' else 1
     if 'files' in rp:
         r = common.replay(['tmpl'], stdin=json.dumps([{'files': json.loads(rp['files']), 'main': json.loads(rp['files'])[0][0], 'want': ['gen_object', 'direct_dependencies']}]), timeout=20)
         out = json.loads(r.stdout)[0] if r.returncode == 0 else {'panic': 'abort'}
